@@ -52,12 +52,22 @@ func c05Proxy(r *Run) {
 	optsB := LinkOpts{Capacity: []int{1 << 20, 64, 4096, 3}[T.DrawP("capB", 4, 0.5)], Latency: ms([]int{0, 1, 20}[T.Draw("latB", 3)]), ChunkReads: T.Bool("chunkB", 0.6)}
 	r.Config["version"] = v.String()
 	r.Config["compression"] = string(comp)
-	r.Config["frames"] = fmt.Sprint(n)
 	frames := make([]*frame.Frame, n)
 	modes := make([]int, n)
 	seekable := make([]bool, n)
+	// bodies beyond 64 KiB (a length the raw paths may treat differently), only over links that are not tiny
+	maxBytes, bigChance := c05MaxBytes(optsA, optsB), 0.1
+	if T.Bool("bigframes", 0.15) && optsA.Capacity >= 4096 && optsB.Capacity >= 4096 {
+		maxBytes, bigChance = 250000, 0.35
+		if n > 8 {
+			n = 8
+			frames, modes, seekable = frames[:n], modes[:n], seekable[:n]
+		}
+	}
+	r.Config["max_field_bytes"] = fmt.Sprint(maxBytes)
+	r.Config["frames"] = fmt.Sprint(n)
 	for i := range frames {
-		frames[i] = GenFrame(T, GenOpts{Version: v, Requests: true, Responses: true, MaxBytes: c05MaxBytes(optsA, optsB), BigChance: 0.1,
+		frames[i] = GenFrame(T, GenOpts{Version: v, Requests: true, Responses: true, MaxBytes: maxBytes, BigChance: bigChance,
 			Compressible: T.Bool("compressible", 0.5), HeaderFlags: true, AllowTracingOnRequests: true}, int16(T.Draw("stream", 120)))
 		if comp != primitive.CompressionNone && T.Bool("compressflag", 0.6) {
 			markCompressed(T, frames[i])
